@@ -58,6 +58,7 @@ import r66_optionsfamily
 import r67_setterfield
 import r68_nosplit
 import r69_gather
+import r70_axisflag
 import r06_validate
 import r07_cache
 import r08_toporder
@@ -272,6 +273,10 @@ def r56(ctx, prop):
 
 def r57(ctx, prop):
     return r57_roleslot.run(ctx.F())
+
+
+def r70(ctx, prop):
+    return r70_axisflag.run(ctx.F())
 
 
 def r69(ctx, prop):
@@ -569,7 +574,7 @@ PROPERTY_RULES = {
     "C20": [r10_transport, r21, r25, r24, r34, r10_selconst, r41, r47, r60],
     "C01": [r1_all, r2, r7, r8, r4, r25, r24, r26, r28, r29, r39, r40, r44, r20b, r10_selconst],
     "C13": [r1_guard, r8, r21, r32, r36, r43],
-    "C17": [r1_functional, r8, r22, r25, r21, r26, r28, r33, r40, r44, r47, r48, r62],
+    "C17": [r1_functional, r8, r22, r25, r21, r26, r28, r33, r40, r44, r47, r48, r62, r70],
     "C11": [r9, r7],
     "C03": [r6, r17, r4, r5, r25, r24, r26, r31, r40, r43, r44, r67],
     "C04": [r4, r16, r25, r24, r26, r31, r10_selconst, r40, r46, r50, r65, r66],
